@@ -948,6 +948,72 @@ fn main() {
             cx.rec.end_case(cx.class ^ (n as u64) << 24, cx.accepted > 0 && cx.rejected > 0);
         }
     }
+    // ---------------------------------------------------------------- the node's own admission path (oracle only)
+    // `Alpenglow::handle_all2all_message` must admit exactly what `ValidatedVote::try_new` admits — whoever the vote
+    // names as signer, the receiving node itself included. Observable: one validator holds 90 % of the stake, so an
+    // admitted notarization vote of it fast-finalizes the slot at once (`finalized_slot`).
+    {
+        use alpenglow::all2all::TrivialAll2All;
+        use alpenglow::consensus::{Alpenglow, ValidatorEpochInfo, Vote};
+        use alpenglow::disseminator::TrivialDisseminator;
+        use alpenglow::network::{UdpNetwork, localhost_ip_sockaddr};
+        use alpenglow::repair::{RepairRequest, RepairResponse};
+        use alpenglow::shredder::Shred;
+        use alpenglow::Transaction;
+        let rt = tokio::runtime::Builder::new_current_thread().enable_all().build().expect("rt");
+        for whale in 0..2usize {
+            cx.rec.begin_case(&format!("node-admission whale={whale}"));
+            let sks: Vec<signature::SecretKey> = (0..2).map(|_| signature::SecretKey::new(&mut rng)).collect();
+            let vsks: Vec<SecretKey> = (0..2).map(|_| SecretKey::new(&mut rng)).collect();
+            let stranger = SecretKey::new(&mut rng);
+            let (node, epoch) = {
+                let _g = rt.enter();
+                let a2a: UdpNetwork<ConsensusMessage, ConsensusMessage> = UdpNetwork::new_with_any_port();
+                let dis: UdpNetwork<Shred, Shred> = UdpNetwork::new_with_any_port();
+                let rq: UdpNetwork<RepairRequest, RepairResponse> = UdpNetwork::new_with_any_port();
+                let rp: UdpNetwork<RepairResponse, RepairRequest> = UdpNetwork::new_with_any_port();
+                let txs: UdpNetwork<Transaction, Transaction> = UdpNetwork::new_with_any_port();
+                let validators: Vec<ValidatorInfo> = (0..2).map(|k| ValidatorInfo {
+                    id: ValidatorIndex::new(k as u64),
+                    stake: Stake::new(if k == whale { 9 } else { 1 }),
+                    pubkey: sks[k].to_pk(),
+                    voting_pubkey: vsks[k].to_pk(),
+                    all2all_address: localhost_ip_sockaddr(a2a.port()),
+                    disseminator_address: localhost_ip_sockaddr(dis.port()),
+                    repair_requester_address: localhost_ip_sockaddr(rq.port()),
+                    repair_responder_address: localhost_ip_sockaddr(rp.port()),
+                }).collect();
+                let epoch = EpochInfo::new(validators.clone());
+                let vei = std::sync::Arc::new(ValidatorEpochInfo::new(ValidatorIndex::new(0), epoch.clone()));
+                (Alpenglow::new(sks[0].clone(), vsks[0].clone(), TrivialAll2All::new(validators.clone(), a2a), TrivialDisseminator::new(validators, dis), rq, rp, vei, txs), epoch)
+            };
+            let pool = node.get_pool();
+            let mut expected = 0u64;
+            let other = 1 - whale;
+            for slot in 1..=6u64 {
+                let h: BlockHash = wincode::deserialize::<alpenglow::crypto::Hash>(&rng.bytes(32)).expect("hash").into();
+                // (who the vote names as signer, which key signs it)
+                let (named, key, what): (usize, &SecretKey, &str) = match slot {
+                    1 => (whale, &stranger, "signed by a key that is no validator's"),
+                    2 => (whale, &vsks[other], "signed by the other validator's key"),
+                    3 => (whale, &vsks[whale], "genuine"),
+                    4 => (whale, &stranger, "signed by a key that is no validator's"),
+                    5 => (2, &vsks[whale], "naming a validator index beyond the set"),
+                    _ => (whale, &vsks[whale], "genuine"),
+                };
+                let v = Vote::new_notar(Slot::new(slot), h, key, ValidatorIndex::new(named as u64));
+                let admissible = ValidatedVote::try_new(v.clone(), &epoch).is_ok();
+                let r = catch(|| rt.block_on(node.verif_handle_all2all_message(ConsensusMessage::Vote(v))));
+                cx.rec.oracle(r.is_ok(), "c09-node-handler-panics", || format!("handle_all2all_message panicked on a notarization vote for slot {slot} naming validator {named} ({what})"));
+                if admissible { expected = slot; }
+                let fin = rt.block_on(async { pool.read().await.finalized_slot().inner() });
+                cx.rec.count(&format!("node-admission:{}", if admissible { "admissible" } else { "inadmissible" }));
+                cx.rec.oracle(fin == expected, "c09-node-admits-unvalidated-vote", || format!("node 0 (whale = validator {whale} with 90 % of the stake) received a notarization vote for slot {slot} naming validator {named}, {what} (ValidatedVote::try_new accepts it: {admissible}); its pool now has finalized slot {fin}, expected {expected}"));
+                if fin != expected { break; }
+            }
+            cx.rec.end_case(whale as u64, true);
+        }
+    }
     let extra = serde_json::json!({ "max_validators": max_n, "rounds": rounds, "threshold_verdicts": per_ty, "kinds": KINDS });
     cx.rec.finish(&args, extra);
 }
